@@ -16,6 +16,7 @@ import (
 	"github.com/taskctl/taskctl/pkg/runner"
 	"github.com/taskctl/taskctl/pkg/scheduler"
 	"github.com/taskctl/taskctl/pkg/task"
+	"github.com/taskctl/taskctl/pkg/variables"
 
 	"verif/internal/h"
 )
@@ -171,11 +172,44 @@ func runOutputCase(a args, idx int, r *h.Rand) {
 		out.Count("rejected_by_graph_builder", 1)
 		return
 	}
+	// a producer whose output contains an escape sequence cut by the boundary between two writes
+	ansi := task.FromCommands("printf 'x \\033'", "printf '[31mred\\033[0m tail\\n'", "printf 'plain\\n'")
+	ansi.Name = "ansi-producer"
+	ansiGot := fmt.Sprintf("%s/got.ansi", dir)
+	ansiCons := task.FromCommands(fmt.Sprintf("printenv ANSI_PRODUCER_OUTPUT > '%s'; true", ansiGot))
+	ansiCons.Name = "ansi-consumer"
+	// a task that was already run on its own, then reused by two stages that run at the same time
+	reused := task.FromCommands("printf \"out-of-$WHO\\n\"; sleep 0.02; printf \"more-of-$WHO\\n\"")
+	reused.Name = "reused"
+	reusedStages := []*scheduler.Stage{
+		{Name: "reuse-one", Task: reused, Env: variables.FromMap(map[string]string{"WHO": "one"})},
+		{Name: "reuse-two", Task: reused, Env: variables.FromMap(map[string]string{"WHO": "two"})},
+	}
+	extra, err := scheduler.NewExecutionGraph(append(reusedStages,
+		&scheduler.Stage{Name: "ansi-producer", Task: ansi}, &scheduler.Stage{Name: "ansi-consumer", Task: ansiCons, DependsOn: []string{"ansi-producer"}})...)
+	if err != nil {
+		panic(err)
+	}
 	out.Begin(fmt.Sprintf("output#%d name=%q", idx, name))
 	tr := newQuietRunner()
+	if idx%3 == 0 {
+		tr.OutputFormat = "prefixed" // the recorded output must not depend on the output format
+	}
+	reused.Env = variables.FromMap(map[string]string{"WHO": "direct"})
+	if e := tr.Run(reused); e != nil || reused.Output() != "out-of-direct\nmore-of-direct\n" {
+		out.Viol("C11", "captured-output-differs/direct-run", fmt.Sprintf("direct run captured %q (err %v)", reused.Output(), e), nil)
+	}
+	reused.Env = variables.NewVariables()
 	sch := scheduler.NewScheduler(tr)
 	sch.VerifSetPause(300 * time.Microsecond)
 	serr := sch.Schedule(g)
+	if serr == nil {
+		sch2 := scheduler.NewScheduler(tr)
+		sch2.VerifSetPause(300 * time.Microsecond)
+		if e := sch2.Schedule(extra); e != nil {
+			out.Viol("C11", "pipeline-failed", fmt.Sprintf("second pipeline (reused task, escape sequences) failed: %v", e), nil)
+		}
+	}
 	lockedFinish(sch.Finish)
 	out.Count("cases", 1)
 	cas := map[string]interface{}{"task_name": name, "export_as": exportAs, "variable": varName, "commands": prod.Commands, "variations": nvar, "want_len": len(want), "consumers": ncons, "via_intermediate": via}
@@ -217,6 +251,22 @@ func runOutputCase(a args, idx int, r *h.Rand) {
 	cst2, _ := g.Node("chain-allow")
 	if o := cst2.Task.Output(); o != "firstsecondsaw[second]" {
 		out.Viol("C11", "output-chaining/after-allowed-failure", fmt.Sprintf(".Output after a tolerated failing command gave %q, want %q", o, "firstsecondsaw[second]"), cas)
+	}
+	if serr == nil {
+		for _, who := range []string{"one", "two"} {
+			st, _ := extra.Node("reuse-" + who)
+			if want := fmt.Sprintf("out-of-%s\nmore-of-%s\n", who, who); st.Task.Output() != want {
+				out.Viol("C11", "captured-output-differs/task-reused-by-parallel-stages", fmt.Sprintf("stage reuse-%s (its task ran on its own before and is shared with a parallel stage) captured %q, its commands wrote %q", who, st.Task.Output(), want), cas)
+			}
+		}
+		ast, _ := extra.Node("ansi-producer")
+		wantAnsi := "x \x1b[31mred\x1b[0m tail\nplain\n"
+		if ast.Task.Output() != wantAnsi {
+			out.Viol("C11", "captured-output-differs/escape-sequence-split-across-writes/"+tr.OutputFormat, fmt.Sprintf("format %s: captured %q, the commands wrote %q", tr.OutputFormat, ast.Task.Output(), wantAnsi), cas)
+		}
+		if b, _ := os.ReadFile(ansiGot); string(b) != wantAnsi+"\n" {
+			out.Viol("C11", "dependant-sees-wrong-output/escape-sequence-split-across-writes/"+tr.OutputFormat, fmt.Sprintf("format %s: the dependant read %q", tr.OutputFormat, string(b)), cas)
+		}
 	}
 	bst, _ := g.Node("both-streams")
 	wantBoth := ""
